@@ -2,7 +2,7 @@
 forwarding contradiction (C10)."""
 import re
 from ..facts import op_place, op_local, lastseg, loc_of, walk_expr
-from .. import sem, facts as factsmod
+from .. import sem, synq, facts as factsmod
 
 VALUE_RS = "laythe_core/src/value.rs"
 
@@ -136,6 +136,36 @@ def run_number_equality(rec, F, which):
                 rec.inst(R, "unboxed: %s == %s can hold" % (vi["name"], vi["name"]), ok=okr, loc=eq.loc)
                 if not okr:
                     rec.finding(R, "F10.eq/unboxed/irreflexive/%s" % vi["name"], "unboxed::Value::eq has no arm for (%s, %s): the value never equals itself in this representation (it does in the NaN-boxed one), so VM tests of the form `x == VALUE_%s` are always false here - reading a module variable or boxed local before its definition pushes the undefined sentinel instead of raising 'Undefined variable', and the next use of it panics the host" % (vi["name"], vi["name"], vi["name"].upper()), loc=eq.loc, fn=eq.path)
+    # when both operands are numbers the answer IS the f64 comparison, on every path: a shortcut on the raw words
+    # (`self.0 == other.0 || ..`) answers true for a NaN compared with itself
+    if ok and which == "boxed":
+        from .. import peval
+
+        def hook(pe, env, t, argvals):
+            n_ = lastseg(t["f"])
+            if n_ == "is_num":
+                return peval.C(1)
+            if n_ == "to_num":
+                r_ = eq.root_of(t["args"][0]) if t["args"] else ("?",)
+                who_ = "A" if (r_ == ("arg", 1) or (r_[0] == "place" and r_[1]["l"] == 1)) else "B"
+                return ("sym", "num" + who_, 0)
+            return NotImplemented
+        try:
+            paths = peval.PEval(F, eq, call_hook=hook).run(0, {}, stop=set())
+            wrong = []
+            for pth in paths:
+                if pth["end"] != "return":
+                    continue
+                rv = pth["env"].get(0)
+                good_ = rv is not None and rv[0] == "cmp" and rv[1] == "Eq" and {rv[2][1], rv[3][1]} == {"numA", "numB"}
+                if not good_:
+                    wrong.append("a constant" if (rv is not None and rv[0] == "c") else "something else than the f64 comparison")
+            okn = bool(paths) and not wrong
+            rec.inst(R, "boxed: for two numbers eq answers with the f64 comparison on every path", ok=okn, loc=eq.loc, note="%d paths" % len(paths))
+            if not okn:
+                rec.finding(R, "F10.eq/boxed/number-shortcut", "boxed::Value::eq can answer for two numbers with %s (a comparison of the raw words decides first): NaN == NaN is true in the NaN-boxed build and false in the other one, so ==, !=, list.has/index and map keys diverge between the builds" % sorted(set(wrong))[0], loc=eq.loc, fn=eq.path)
+        except peval.Limit:
+            rec.unan(R, "boxed::Value::eq", "too many paths")
     # exactness: nothing but the IEEE comparison itself decides number equality (no tolerance, no rounding)
     if ok:
         extra = []
@@ -365,6 +395,14 @@ def run_tag_algebra(rec, S, B):
     if tb:
         e = ret_expr(tb)
         okt = bool(e) and e.get("e") == "binary" and e["op"] == "==" and {lastseg(x.get("p", "")) for x in (e["a"], e["b"])} == {"self", "VALUE_TRUE"}
+        if not okt and bool(e) and e.get("e") == "binary" and e["op"] == "==":
+            # `self.0 == TAG_TRUE`: the same test on the raw word, when VALUE_TRUE is Value(TAG_TRUE)
+            sides = {synq.src(e["a"]).replace(" ", ""), synq.src(e["b"]).replace(" ", "")}
+            vt = B["consts"].get("VALUE_TRUE") if isinstance(B.get("consts"), dict) else None
+            vt_src = ""
+            if isinstance(vt, dict):
+                vt_src = "".join(synq.src(v_) if isinstance(v_, dict) else str(v_) for k_, v_ in vt.items() if k_ in ("init", "value", "expr", "e", "val")).replace(" ", "")
+            okt = sides == {"self.0", "TAG_TRUE"} and ("TAG_TRUE" in vt_src if vt_src else False)
     chk("bool-roundtrip", okb and okt, "From<bool> / to_bool do not compose to the identity")
     # kind(): low-bit switch
     kf = B["fn_items"].get("kind")
@@ -495,6 +533,9 @@ def run_number_roundtrip(rec, NB):
             if blk["t"]["k"] == "switch":
                 bad.append("a branch on the value")
             if blk["t"]["k"] == "call" and "panic" not in blk["t"]["f"]:
+                # f64::to_bits / f64::from_bits are the identity on the bit pattern (a transmute), like the union they replace
+                if re.search(r"core::f64::<impl f64>::(to_bits|from_bits)$", blk["t"]["f"]) or re.search(r"::f64::.*::(to_bits|from_bits)$", blk["t"]["f"]):
+                    continue
                 bad.append("a call to %s" % lastseg(blk["t"]["f"]))
             for s_ in blk["s"]:
                 if s_["r"]["k"] in ("bin", "checked", "un"):
